@@ -268,7 +268,7 @@ def _mk_value(shape: int, s: str, t: str, n: int, b: bool, f: float, k: str):
     if shape == 3:
         return {"k": [s, n, None], k + "2": b}
     if shape == 4:
-        return [[s], {k: [f, {"<": t}]}, n]
+        return [[s], {k: [0.5, {"<": t}]}, 7]
     if shape == 5:
         return [s + "<", "/" + t]
     if shape == 6:
@@ -276,30 +276,47 @@ def _mk_value(shape: int, s: str, t: str, n: int, b: bool, f: float, k: str):
     return [{"a": s, "b": [t, b]}, [], {}]
 
 
-def pre_json_val(shape: int, si: int, ti: int, b: bool, ni: int, fi: int, ki: int) -> bool:
-    # the pool indices are reduced modulo the pool size in the body (a rejecting pre costs paths)
-    return 0 <= shape <= 7 and in_shard(shape)
+def _cases(nt: int):
+    """(shape, si, ti, b, ni, fi, ki) tuples: every shape with every combination of the pool entries it
+    actually uses."""
+    out = []
+    T, I, F, K, B = range(nt), range(len(_INTS)), range(len(_FLOATS)), range(len(_KEYS)), (0, 1)
+    out += [(0, 0, 0, b, n, f, 0) for b in B for n in I for f in F]
+    out += [(1, s, t, 0, 0, 0, 0) for s in T for t in T]
+    out += [(2, 0, t, 0, 0, 0, k) for t in T for k in K]
+    out += [(3, s, 0, b, k % len(_INTS), 0, k) for s in T for b in B for k in K]
+    out += [(4, s, t, 0, 0, 0, k) for s in T for t in T for k in K]
+    out += [(5, s, t, 0, 0, 0, 0) for s in T for t in T]
+    out += [(6, s, 0, 0, 0, 0, k) for s in T for k in K]
+    out += [(7, s, t, b, 0, 0, 0) for s in T for t in T for b in B]
+    return out
 
 
-@harness(pre=pre_json_val, quick=dict(NT=6, timeout=120), thorough=dict(NT=len(_TOK), timeout=900),
+_CASES = {"quick": _cases(3), "thorough": _cases(8)}
+
+
+def pre_json_val(i: int) -> bool:
+    return 0 <= i < len(_CASES[P.tier]) and in_shard(i)
+
+
+@harness(pre=pre_json_val, quick=dict(timeout=100), thorough=dict(timeout=900),
          nshards=dict(quick=2, thorough=8), reach=["nested_lt_slash", "float_leaf"],
          units=["escape.json_encode", "escape.json_decode"],
-         stubs=["value = one of 8 container shapes (None/bool/int/float/list/dict nested to depth 3); "
-                "str leaves TOK[si], TOK[ti], ints %r, floats %r and dict keys %r all chosen by symbolic "
-                "index (json.dumps realises numbers and dict keys, and CrossHair 0.0.110 fails internally on "
-                "symbolic text inside containers here); the free symbolic text is in h_json_str"
-                % (_INTS, _FLOATS, _KEYS)],
+         stubs=["value = one of 8 container shapes (None/bool/int/float/list/dict nested to depth 3) with "
+                "str leaves from TOK (first 3 in quick, 8 in thorough), ints %r, floats %r, dict keys %r: the "
+                "combination is chosen by ONE symbolic index into the table of all combinations "
+                "(json.dumps realises numbers and dict keys, and CrossHair 0.0.110 fails internally on "
+                "symbolic text inside containers here), i.e. this harness is an enumeration; the free "
+                "symbolic text is in h_json_str" % (_INTS, _FLOATS, _KEYS)],
          outside=["free symbolic leaves inside containers", "other shapes / deeper nesting",
                   "non-JSON values (tuples, non-str keys, NaN)"])
-def h_json_val(shape: int, si: int, ti: int, b: bool, ni: int, fi: int, ki: int):
+def h_json_val(i: int):
     """json_encode(value) never contains '</' and json_decode gives an equal value."""
-    si, ti = si % P.NT, ti % P.NT
-    ni, fi, ki = ni % len(_INTS), fi % len(_FLOATS), ki % len(_KEYS)
-    s = _TOK[si]
-    v = _mk_value(shape, s, _TOK[ti], _INTS[ni], b, _FLOATS[fi], _KEYS[ki])
+    shape, si, ti, b, ni, fi, ki = _CASES[P.tier][i]
+    v = _mk_value(shape, _TOK[si], _TOK[ti], _INTS[ni], bool(b), _FLOATS[fi], _KEYS[ki])
     e = escape.json_encode(v)
     assert "</" not in e, "'</' in JSON output %r" % (e,)
-    if shape == 5 and si == 0 and ti == 0:
+    if shape == 5:
         reached("nested_lt_slash")
     if shape == 0 and fi == 2:
         reached("float_leaf")
@@ -426,25 +443,36 @@ def _ref_parse_qs(b: bytes, keep_blank: bool):
     return res
 
 
-def pre_qs(b: bytes, keep: bool) -> bool:
-    return len(b) <= P.L and in_shard(len(b) + (1 if keep else 0))
+_QPAIRS = [(b"", b"=b"), (b"a=", b""), (b"a=%4", b""), (b"a=", b"&c=d"), (b"", b""), (b"x=1&", b"=2"),
+           (b"%e9=", b""), (b"a=%", b"1"), (b"a=", b"+"), (b"", b"&&=")]
 
 
-@harness(pre=pre_qs, quick=dict(L=3, timeout=150), thorough=dict(L=5, timeout=1400),
-         nshards=dict(quick=4, thorough=12), reach=["pair", "percent_decoded", "high_byte_name"],
+def pre_qs(pi: int, b: bytes, keep: bool) -> bool:
+    return 0 <= pi < P.NP and len(b) <= P.L and in_shard(pi)
+
+
+@harness(pre=pre_qs, quick=dict(L=1, NP=5, timeout=100, reach_timeout=80),
+         thorough=dict(L=2, NP=len(_QPAIRS), timeout=1400, reach_timeout=80),
+         nshards=dict(quick=5, thorough=10), reach=["pair", "percent_decoded", "high_byte_name"],
          units=["escape.parse_qs_bytes", "urllib.parse.parse_qs"],
-         outside=["query strings longer than L bytes", "strict_parsing=True", "max_num_fields"])
-def h_qs(b: bytes, keep: bool):
+         stubs=["qs = PRE + free bytes (<= L) + SUF with (PRE, SUF) = PAIRS[pi], PAIRS=%r (first NP in "
+                "quick): unquote realises the two bytes after a '%%', so the free part is short" % (_QPAIRS,)],
+         outside=["more than L free bytes", "strict_parsing=True", "max_num_fields"])
+def h_qs(pi: int, b: bytes, keep: bool):
     """parse_qs_bytes(bytes) and parse_qs_bytes(latin-1 str) == reference splitter: every byte
     of every name and value is preserved."""
+    hit_pct = pi == 2 and b == b"1"          # decided before the real call so the twin finds it
+    hit_high = pi == 0 and b == b"\xe9"
+    b = _QPAIRS[pi][0] + b + _QPAIRS[pi][1]
     got = escape.parse_qs_bytes(b, keep_blank_values=keep)
     ref = _ref_parse_qs(b, keep)
     if len(ref) > 0:
         reached("pair")
-        k0 = list(ref)[0]
-        if len(k0) > 0 and ord(k0[0]) >= 0x80:
-            reached("high_byte_name")
-    if b[:1] == b"a" and b[1:2] == b"=" and b[2:3] == b"%":
+    if hit_high:
+        assert got == {"\xe9": [b"b"]}
+        reached("high_byte_name")
+    if hit_pct:
+        assert got == {"a": [b"A"]}
         reached("percent_decoded")
     assert got == ref, "parse_qs_bytes(%r) = %r, reference %r" % (b, got, ref)
     for k, vs in got.items():
